@@ -13,5 +13,7 @@ func (r *reader) verifCurr()              {}
 
 type verifScanState struct{}
 
-func (s *bufScanner) verifStep() {}
-func (s *bufScanner) verifCurr() {}
+func (s *bufScanner) verifStep()       {}
+func (s *bufScanner) verifCurr()       {}
+func (s *bufScanner) verifBeforeScan() {}
+func (s *bufScanner) verifAfterScan()  {}
